@@ -3,8 +3,14 @@
 # registered quick checks, undo. No check may raise an alarm. Output: selftest/controls_result.md
 cd /verif
 out=selftest/controls_result.md
-echo "# Behaviour-preserving controls: every quick check on each (none may alarm)" > $out
-for p in /verif/controls/*.patch; do
+# usage: controls.sh            all controls, result file rewritten
+#        controls.sh R2-A R6-C  only those, results appended
+if [ $# -eq 0 ]; then
+  echo "# Behaviour-preserving controls: every quick check on each (none may alarm)" > $out
+  set -- $(cd controls && ls *.patch | sed 's/\.patch$//')
+fi
+for name in "$@"; do
+  p=/verif/controls/$name.patch
   [ -n "$(git -C /repo status --porcelain)" ] && { echo "/repo not clean"; exit 3; }
   git -C /repo apply "$p" || { echo "$p does not apply" >> $out; continue; }
   bad=""
